@@ -271,7 +271,11 @@ func (r *Repo) RunPintCI(pint, cfg string) ([]JSONReport, string, error) {
 	}
 	var reps []JSONReport
 	if err := json.Unmarshal(b, &reps); err != nil {
-		return nil, string(stderr), fmt.Errorf("unreadable report: %v: %s", err, b)
+		tail := string(stderr)
+		if len(tail) > 600 {
+			tail = tail[len(tail)-600:]
+		}
+		return nil, string(stderr), fmt.Errorf("unreadable report: %v: %q; pint exit: %v; pint said: %s", err, b, runErr, tail)
 	}
 	return reps, string(stderr), nil
 }
